@@ -172,7 +172,8 @@ class Model:
             raise KeyError("getpwnam(): /etc/passwd not available inside the chroot")
         if name != self.opts["user"]:
             raise KeyError(name)
-        return (name, "x", self.opts["uid"], self.opts["gid"], "", "/", "/bin/false")
+        import pwd
+        return pwd.struct_passwd((name, "x", self.opts["uid"], self.opts["gid"], "", "/", "/bin/false"))
 
     def getgrnam(self, name):
         self.rec("getgrnam", name)
@@ -181,7 +182,8 @@ class Model:
             raise KeyError("getgrnam(): /etc/group not available inside the chroot")
         if name != self.opts["group"]:
             raise KeyError(name)
-        return (name, "x", self.opts["gid"], [])
+        import grp
+        return grp.struct_group((name, "x", self.opts["gid"], []))
 
     def chroot(self, path):
         self.rec("chroot", os.fspath(path))
